@@ -408,7 +408,7 @@ def case_cif(ctx, p):
     rng = np.random.default_rng(p["s"])
     o = c04.Table(p["no"], p["setting"])
     text, rec = make_cif(rng, o.name, p["no"], p["setting"])
-    path = os.path.join(ctx.dir, "case_%d.cif" % p["s"])
+    path = os.path.join(ctx.dir, "case_%d.cif" % (p["s"] % 3))      # three paths, rewritten over and over
     with open(path, "w") as fh:
         fh.write(text)
     ctx.records[path] = rec
@@ -432,7 +432,7 @@ def case_pdb(ctx, p):
     mon = ctx.mon
     rng = np.random.default_rng(p["s"])
     text, rec = make_pdb(rng, p["symbol"], p["no"])
-    path = os.path.join(ctx.dir, "case_%d.pdb" % p["s"])
+    path = os.path.join(ctx.dir, "case_%d.pdb" % (p["s"] % 3))
     with open(path, "w") as fh:
         fh.write(text)
     ctx.records[path] = rec
